@@ -59,10 +59,10 @@ def run_tlc(module, cfg=None, workers=1, timeout=600, env=None, scratch=None, ex
             "ok": rc == 0 and "Model checking completed. No error has been found." in out}
 
 
-def mc(module, cfg, workers=8, timeout=900, extra=()):
+def mc(module, cfg, workers=8, timeout=900, extra=(), env=None):
     """Model-check an as-built/intended model.  Any error (invariant violated, evaluation error, timeout)
     is returned to the caller, which decides what it means."""
-    r = run_tlc(module, cfg, workers=workers, timeout=timeout, extra=extra)
+    r = run_tlc(module, cfg, workers=workers, timeout=timeout, extra=extra, env=env)
     r["violated"] = re.findall(r"Invariant (\S+) is violated|Action property (\S+) is violated|Temporal properties were violated", r["out"])
     return r
 
